@@ -234,3 +234,16 @@ func identical(v, w interface{}) (same bool) {
 	}()
 	return v == w
 }
+
+// guard runs f (a call into gorm) and reports a panic instead of letting it
+// escape: a panic the program did not throw is a violation, never a crash of
+// the run.
+func guard(f func()) (pv interface{}, panicked bool) {
+	defer func() {
+		if p := recover(); p != nil {
+			pv, panicked = p, true
+		}
+	}()
+	f()
+	return
+}
